@@ -431,6 +431,20 @@ def generate(unit, canary=False):
 
     for kind, val in parts:
         if kind == "text":
+            if canary and "//probe " in val:
+                # `//probe <proof statements>`: in the canary file this becomes a proof fn ending in
+                # `assert(false)` that MUST fail - guards ghost-only units (axioms) against vacuity
+                new_val = []
+                for ln in val.split("\n"):
+                    st = ln.strip()
+                    if st.startswith("//probe "):
+                        first = cur_line() + sum(x.count("\n") + 1 for x in new_val)
+                        new_val.append("proof fn verif_probe_%d(%s) { %s assert(false); } // VERIF-CANARY" % (
+                            len(canary_lines), st[len("//probe "):].split("|", 1)[0].strip(), st.split("|", 1)[1].strip()))
+                        canary_lines.append((first, "probe: " + st[:60]))
+                    else:
+                        new_val.append(ln)
+                val = "\n".join(new_val)
             out_lines.append(val)
             continue
         b = val
